@@ -93,6 +93,9 @@ func TestVerifC17Completion(t *testing.T) {
 			k = rr.Range(31, 40) // long enough for the token-repeat abort
 		}
 		same := rr.Chance(1, 6)
+		if i%20 == 7 { // every 20th case: enough equal tokens for the token-repeat abort
+			k, same = rr.Range(33, 40), true
+		}
 		for j := 0; j < k; j++ {
 			w := zzverif.Pick(rr, words)
 			if same {
